@@ -1,8 +1,72 @@
-(* C16 - WORK IN PROGRESS (theorems being ported) *)
+(* C16 - a progress bar always shows a truthful, well-formed frame and ends at 100%.
+   pstep p now op = Ok (p', es): one public call at clock value now (milliseconds) leaves the bar in state p' and puts the
+   emits es on the stream (Err: the call raises - %estimated% / %remaining% without a maximum, a text the formatter refuses).
+   range p = 0 <= step, 0 <= max, max > 0 -> step <= max.  drawable p = the output is not quiet (and, on a section output,
+   the bar's section exists).  The frame is markup: it is measured by its visible length and reaches the stream through
+   the formatter of the output; on a section output through SectionOutput.clear / write (Model/Section.v). *)
 From Coq Require Import ZArith.
-From Clikit Require Import Base.Prelude Base.Res Base.Term Model.Conv Model.Markup Model.Section Model.Progress Proofs.ProgressLemmas.
+From Clikit Require Import Base.Prelude Base.Res Base.Term Model.Conv Model.Markup Model.Section Model.Progress
+  Proofs.SectionLemmas Proofs.ProgressLemmas.
 Local Open Scope Z_scope.
+
+(* For EVERY sequence of calls and every timing: the current step stays between 0 and the maximum ... *)
+Theorem step_in_range : forall p now o p' es, pstep p now o = Ok (p', es) -> range p -> range p'.
+Proof. exact pstep_range. Qed.
+Print Assumptions step_in_range.
 Theorem new_bar_in_range : forall ansi quiet sec w f st v mx bw mn md xn xd rf pc cu msg now,
   range (pb_new ansi quiet sec w f st v mx bw mn md xn xd rf pc cu msg now).
 Proof. exact new_range. Qed.
 Print Assumptions new_bar_in_range.
+
+(* ... every frame's bar segment is exactly as wide as configured (a progress character of one visible cell: pc is its
+   visible text; the offset of a bar without maximum is the double arithmetic of the code, bit for bit), and the
+   percentage shown is floor(100 * step / max), between 0 and 100 and equal to 100 exactly at the maximum. *)
+Theorem frame_wf : forall p, range p -> 0 < p_bar_width p -> length (render_bar p) = Z.to_nat (p_bar_width p).
+Proof. exact render_bar_width. Qed.
+Print Assumptions frame_wf.
+Theorem frame_wf_any_progress_character : forall p pc, range p -> 0 < p_bar_width p -> length pc = 1%nat ->
+  length (render_bar_with p pc 1) = Z.to_nat (p_bar_width p).
+Proof. exact render_bar_with_width. Qed.
+Print Assumptions frame_wf_any_progress_character.
+Theorem percent_wf : forall p, range p -> 0 < p_max p -> 0 <= p_step p * 100 / p_max p <= 100.
+Proof. exact percent_bounds. Qed.
+Print Assumptions percent_wf.
+Theorem percent_100_at_max : forall p, 0 < p_max p -> p_step p = p_max p -> p_step p * 100 / p_max p = 100.
+Proof. exact percent_at_max. Qed.
+Print Assumptions percent_100_at_max.
+Theorem percent_100_only_at_max : forall p, range p -> 0 < p_max p -> p_step p * 100 / p_max p = 100 -> p_step p = p_max p.
+Proof. exact ProgressLemmas.percent_100_only_at_max. Qed.
+Print Assumptions percent_100_only_at_max.
+
+(* A redraw caused by advancing that does not reach the maximum comes no sooner than the minimum interval
+   after the previous write. *)
+Theorem throttle : forall p now k p' es, set_progress p now k = Ok (p', es) ->
+  es <> [] -> p_step p' <> p_max p' -> p_min_num p * 1000 <= (now - p_last_write p) * p_min_den p.
+Proof. exact throttle_lemma. Qed.
+Print Assumptions throttle.
+
+(* Reaching the maximum and finishing always draw on an overwriting output (ANSI, plain stream or section) that is not
+   quiet; after finish step = max. *)
+Theorem max_reached_draws : forall p now k p' es, drawable p -> p_ansi p = true -> set_progress p now k = Ok (p', es) ->
+  p_step p' = p_max p' -> es <> [].
+Proof. exact reaching_max_draws. Qed.
+Print Assumptions max_reached_draws.
+Theorem finish_shows_max : forall p now p' es, drawable p -> p_ansi p = true -> range p -> pstep p now OFinish = Ok (p', es) ->
+  es <> [] /\ p_step p' = p_max p'.
+Proof. exact finish_lemma. Qed.
+Print Assumptions finish_shows_max.
+(* On EVERY output that is not quiet (plain ones included): after finish the step is the maximum and the last frame
+   display() wrote is the frame of that state (step = max) - on a plain output it may be the frame written when the
+   maximum was reached, which is not written a second time. *)
+Theorem finish_last_frame_is_max : forall p now p' es, p_quiet p = false -> range p -> pstep p now OFinish = Ok (p', es) ->
+  p_step p' = p_max p' /\ p_drawn p' = Some (p_max p', p_max p').
+Proof. exact finish_last_frame. Qed.
+Print Assumptions finish_last_frame_is_max.
+
+(* Plain output: only text and line breaks, never a control code. Quiet output: nothing at all from the bar's calls. *)
+Theorem plain_own_line : forall p now o p' es, p_ansi p = false -> pstep p now o = Ok (p', es) -> forallb plain_emit es = true.
+Proof. exact pstep_plain. Qed.
+Print Assumptions plain_own_line.
+Theorem quiet_silent : forall p now o p' es, p_quiet p = true -> bar_call o -> pstep p now o = Ok (p', es) -> es = [].
+Proof. exact pstep_quiet. Qed.
+Print Assumptions quiet_silent.
